@@ -150,14 +150,32 @@ Definition index_dump (c : rc) (i : nat) : list (ikey * list sym) :=
 Definition rc_index_exists (T : table) (specs : list ispec) (c : rc) (u : sym) (r : row) : bool :=
   conflicts T specs (rc_idx c) u r.
 
+(** RowCache.indexUsable (Where(model) only): the model has a value other
+    than the default in every column of the index (for a map key: the key is
+    present) *)
+Definition col_nondefault (T : table) (m : row) (col : sym) : bool :=
+  match find_col T col, m !! col with
+  | Some C, Some v => negb (bool_decide (v = default_value (c_ty C)))
+  | _, _ => false
+  end.
+Definition ck_usable (T : table) (m : row) (ck : sym * option atom) : bool :=
+  match ck.2 with
+  | None => col_nondefault T m ck.1
+  | Some k => match m !! ck.1 with Some (VMap mp) => bool_decide (is_Some (mp !! k)) | _ => false end
+  end.
+Definition usable (T : table) (s : ispec) (m : row) : bool := forallb (ck_usable T m) (i_cols s).
+
 (** rowsByModels for one model: by UUID first (when [u] is given), then the
     first index — schema indexes first, client indexes only when allowed —
-    that has an entry for the model's value. [mvals] are the model's fields. *)
+    that has an entry for the model's value; with client indexes allowed
+    (RowsByModels, behind Where(model)) indexes that are not usable for the
+    model are passed over. [mvals] are the model's fields. *)
 Fixpoint first_index_hit (T : table) (client : bool) (mvals : row) (sm : list (ispec * idx1)) : option (gset sym) :=
   match sm with
   | [] => None
   | (s, m) :: sm' =>
     if negb (i_schema s) && negb client then None
+    else if client && negb (usable T s mvals) then first_index_hit T client mvals sm'
     else match m !! K T s mvals with
          | Some us => Some us
          | None => first_index_hit T client mvals sm'
